@@ -1,74 +1,46 @@
-/-! probe: C19 — TaskPool counter conservation with a ghost leak counter, and the concurrency bound -/
-namespace C19
+import NbioVerif.Model.TPool
+/-! Inductive invariants of the task-pool transition system: the counter equation, the worker
+bound, and conservation of tasks (by counting). -/
+namespace TPool
 
-inductive Disp | idle | holding (t : Nat) | running (t : Nat)
-  deriving DecidableEq, Repr
-inductive GoPh | failed (t : Nat) | enq (t : Nat)
-  deriving DecidableEq, Repr
+/-! ### list helpers -/
 
-structure St where
-  conc    : Int := 0
-  queue   : List Nat := []
-  workers : List (Option Nat) := []
-  disp    : Disp := .idle
-  goers   : List GoPh := []
-  done    : List Nat := []
-  leaked  : Nat := 0             -- ghost: failed forks of the dispatcher (never undone by the code)
-  deriving DecidableEq, Repr
+theorem count_flatMap_set {α : Type} (f : α → List Nat) (t : Nat) :
+    ∀ (l : List α) (i : Nat) (x y : α), l[i]? = some x →
+      ((l.set i y).flatMap f).count t + (f x).count t = (l.flatMap f).count t + (f y).count t := by
+  intro l
+  induction l with
+  | nil => intro i x y h; simp at h
+  | cons a as ih =>
+    intro i x y h
+    cases i with
+    | zero =>
+      simp at h; subst h
+      simp [List.flatMap_cons, List.count_append]; omega
+    | succ j =>
+      simp at h
+      have := ih j x y h
+      simp [List.flatMap_cons, List.count_append] at this ⊢; omega
 
-structure Cfg where
-  maxC : Int
-  cap  : Nat
-
-inductive Act
-  | go (t : Nat) | goUndo (i : Nat) | goEnq (i : Nat) | wFinish (i : Nat) | wTake (i : Nat) | dRecv | dFork | dFinish
+theorem count_flatMap_eraseIdx {α : Type} (f : α → List Nat) (t : Nat) :
+    ∀ (l : List α) (i : Nat) (x : α), l[i]? = some x →
+      ((l.eraseIdx i).flatMap f).count t + (f x).count t = (l.flatMap f).count t := by
+  intro l
+  induction l with
+  | nil => intro i x h; simp at h
+  | cons a as ih =>
+    intro i x h
+    cases i with
+    | zero =>
+      simp at h; subst h
+      simp [List.flatMap_cons, List.count_append]; omega
+    | succ j =>
+      simp at h
+      have := ih j x h
+      simp [List.flatMap_cons, List.count_append] at this ⊢; omega
 
 def isFailed : GoPh → Bool | .failed _ => true | .enq _ => false
 def nFailed (s : St) : Nat := (s.goers.filter isFailed).length
-
-def step (g : Cfg) (s : St) : Act → Option St
-  | .go t =>
-    let v := s.conc + 1
-    if v < g.maxC then some { s with conc := v, workers := s.workers ++ [some t] }
-    else some { s with conc := v, goers := s.goers ++ [.failed t] }
-  | .goUndo i =>
-    match s.goers[i]? with
-    | some (.failed t) => some { s with conc := s.conc - 1, goers := s.goers.set i (.enq t) }
-    | _ => none
-  | .goEnq i =>
-    match s.goers[i]? with
-    | some (.enq t) =>
-      if s.queue.length < g.cap then some { s with queue := s.queue ++ [t], goers := s.goers.eraseIdx i } else none
-    | _ => none
-  | .wFinish i =>
-    match s.workers[i]? with
-    | some (some t) => some { s with workers := s.workers.set i none, done := s.done ++ [t] }
-    | _ => none
-  | .wTake i =>
-    match s.workers[i]? with
-    | some none =>
-      match s.queue with
-      | t :: q => some { s with queue := q, workers := s.workers.set i (some t) }
-      | [] => some { s with workers := s.workers.eraseIdx i, conc := s.conc - 1 }
-    | _ => none
-  | .dRecv =>
-    match s.disp, s.queue with
-    | .idle, t :: q => some { s with disp := .holding t, queue := q }
-    | _, _ => none
-  | .dFork =>
-    match s.disp with
-    | .holding t =>
-      let v := s.conc + 1
-      if v < g.maxC then some { s with conc := v, workers := s.workers ++ [some t], disp := .idle }
-      else some { s with conc := v, disp := .running t, leaked := s.leaked + 1 }
-    | _ => none
-  | .dFinish =>
-    match s.disp with
-    | .running t => some { s with disp := .idle, done := s.done ++ [t] }
-    | _ => none
-
-/-- counter conservation: the counter is exactly live workers + in-flight failed Go calls + leaks -/
-def Inv (s : St) : Prop := s.conc = (s.workers.length : Int) + (nFailed s : Int) + (s.leaked : Int)
 
 theorem filter_set_failed_enq (l : List GoPh) (i t : Nat) (h : l[i]? = some (.failed t)) :
     ((l.set i (.enq t)).filter isFailed).length + 1 = (l.filter isFailed).length := by
@@ -80,7 +52,7 @@ theorem filter_set_failed_enq (l : List GoPh) (i t : Nat) (h : l[i]? = some (.fa
     | succ j =>
       simp at h
       have := ih j h
-      cases hx : isFailed x <;> simp [List.filter_cons, hx] <;> omega
+      cases hx : isFailed x <;> simp [hx] <;> omega
 
 theorem filter_erase_enq (l : List GoPh) (i t : Nat) (h : l[i]? = some (.enq t)) :
     ((l.eraseIdx i).filter isFailed).length = (l.filter isFailed).length := by
@@ -88,89 +60,347 @@ theorem filter_erase_enq (l : List GoPh) (i t : Nat) (h : l[i]? = some (.enq t))
   | nil => simp at h
   | cons x xs ih =>
     cases i with
-    | zero => simp at h; subst h; simp [isFailed, List.filter_cons]
+    | zero => simp at h; subst h; simp [isFailed]
     | succ j =>
       simp at h
       have := ih j h
-      cases hx : isFailed x <;> simp [List.filter_cons, hx] <;> omega
+      cases hx : isFailed x <;> simp [hx] <;> omega
 
-theorem inv_step (g : Cfg) (s s' : St) (a : Act) (h : Inv s) (hs : step g s a = some s') : Inv s' := by
-  unfold Inv at *
+/-! ### the counter equation and the worker bound -/
+
+def dFailed (s : St) : Nat := match s.disp with | .failed _ => 1 | _ => 0
+def stopTerm (g : Cfg) (s : St) : Int := if s.stopAdd then g.maxC else 0
+
+/-- `concurrent` = live workers + increments of failed forks not yet undone + `Stop`'s addend;
+    and a worker is only ever started below the bound -/
+structure CInv (g : Cfg) (s : St) : Prop where
+  counter : s.conc = (s.workers.length : Int) + (nFailed s : Int) + (dFailed s : Int) + stopTerm g s
+  bound   : s.workers = [] ∨ (s.workers.length : Int) < g.maxC
+
+theorem cinv_init (g : Cfg) : CInv g init := by
+  constructor <;> simp [init, nFailed, dFailed, stopTerm]
+
+theorem fork_bound (g : Cfg) (s : St) (h : CInv g s) (hv : s.conc + 1 < g.maxC) :
+    ((s.workers.length + 1 : Nat) : Int) < g.maxC := by
+  have hc := h.counter
+  unfold stopTerm at hc
+  split at hc <;> omega
+
+theorem cinv_step (g : Cfg) (hl : g.leak = false) (s s' : St) (a : Act) (h : CInv g s)
+    (hs : step g s a = some s') : CInv g s' := by
+  have hc := h.counter
+  have hb := h.bound
   cases a with
   | go t =>
     simp only [step] at hs
-    split at hs <;> cases hs
-    · simp [nFailed] at h ⊢; omega
-    · have e : (List.filter isFailed [GoPh.failed t]).length = 1 := by simp [isFailed, List.filter_cons]
-      simp [nFailed, List.filter_append, e] at h ⊢; omega
+    split at hs
+    · rename_i hv
+      have := fork_bound g s h hv
+      cases hs
+      constructor
+      · simp [nFailed, dFailed, stopTerm] at hc ⊢; omega
+      · right; simpa using this
+    · cases hs
+      constructor
+      · have e : (List.filter isFailed [GoPh.failed t]).length = 1 := by simp [isFailed, List.filter_cons]
+        simp [nFailed, dFailed, stopTerm, List.filter_append, e] at hc ⊢; omega
+      · exact hb
   | goUndo i =>
     simp only [step] at hs
     split at hs
     · rename_i t hg
       cases hs
       have := filter_set_failed_enq s.goers i t hg
-      simp [nFailed] at h ⊢; omega
+      constructor
+      · simp [nFailed, dFailed, stopTerm] at hc ⊢; omega
+      · exact hb
     · cases hs
   | goEnq i =>
     simp only [step] at hs
     split at hs
     · rename_i t hg
+      have := filter_erase_enq s.goers i t hg
       split at hs
       · cases hs
-        have := filter_erase_enq s.goers i t hg
-        simp [nFailed] at h ⊢; omega
+        exact ⟨by simp [nFailed, dFailed, stopTerm] at hc ⊢; omega, hb⟩
+      · split at hs
+        · rename_i hidle
+          cases hs
+          have hd : s.disp = .idle := hidle.2.1
+          exact ⟨by simp [nFailed, dFailed, stopTerm, hd] at hc ⊢; omega, hb⟩
+        · cases hs
+    · cases hs
+  | goDrop i =>
+    simp only [step] at hs
+    split at hs
+    · rename_i t hg
+      have := filter_erase_enq s.goers i t hg
+      split at hs
+      · cases hs
+        exact ⟨by simp [nFailed, dFailed, stopTerm] at hc ⊢; omega, hb⟩
       · cases hs
     · cases hs
-  | wFinish i => simp only [step] at hs; split at hs <;> first | (cases hs; simpa [nFailed] using h) | cases hs
+  | wFinish i p =>
+    simp only [step] at hs
+    split at hs
+    · cases hs
+      exact ⟨by simpa [nFailed, dFailed, stopTerm] using hc, by
+        rcases hb with hb | hb
+        · left; simp [hb]
+        · right; simpa using hb⟩
+    · cases hs
   | wTake i =>
     simp only [step] at hs
     split at hs
-    · rename_i hw
-      split at hs
-      · cases hs; simpa [nFailed] using h
-      · cases hs
-        have hi : i < s.workers.length := (List.getElem?_eq_some_iff.mp hw).1
-        simp [nFailed, List.length_eraseIdx, hi] at h ⊢; omega
+    · split at hs <;> cases hs <;>
+        exact ⟨by simpa [nFailed, dFailed, stopTerm] using hc, by
+          rcases hb with hb | hb
+          · left; simp [hb]
+          · right; simpa using hb⟩
     · cases hs
-  | dRecv => simp only [step] at hs; split at hs <;> first | (cases hs; simpa [nFailed] using h) | cases hs
+  | wRdv i k =>
+    simp only [step] at hs
+    split at hs
+    · rename_i t hw hg
+      have := filter_erase_enq s.goers k t hg
+      split at hs
+      · cases hs
+        exact ⟨by simp [nFailed, dFailed, stopTerm] at hc ⊢; omega, by
+          rcases hb with hb | hb
+          · left; simp [hb]
+          · right; simpa using hb⟩
+      · cases hs
+    · cases hs
+  | wExit i =>
+    simp only [step] at hs
+    split at hs
+    · rename_i hw
+      cases hs
+      have hi : i < s.workers.length := (List.getElem?_eq_some_iff.mp hw).1
+      constructor
+      · simp [nFailed, dFailed, stopTerm, List.length_eraseIdx, hi] at hc ⊢; omega
+      · rcases hb with hb | hb
+        · left; simp [hb]
+        · right; simp [List.length_eraseIdx, hi]; omega
+    · cases hs
+  | dRecv =>
+    simp only [step] at hs
+    split at hs
+    · rename_i hd _
+      cases hs
+      exact ⟨by simp [nFailed, dFailed, stopTerm, hd] at hc ⊢; omega, hb⟩
+    · cases hs
+  | dExit =>
+    simp only [step] at hs
+    split at hs
+    · rename_i hd
+      split at hs
+      · cases hs
+        exact ⟨by simp [nFailed, dFailed, stopTerm, hd] at hc ⊢; omega, hb⟩
+      · cases hs
+    · cases hs
   | dFork =>
     simp only [step] at hs
     split at hs
-    · split at hs <;> cases hs <;> (simp [nFailed] at h ⊢; omega)
+    · rename_i t hd
+      split at hs
+      · rename_i hv
+        have := fork_bound g s h hv
+        cases hs
+        constructor
+        · simp [nFailed, dFailed, stopTerm, hd] at hc ⊢; omega
+        · right; simpa using this
+      · cases hs
+        exact ⟨by simp [nFailed, dFailed, stopTerm, hd] at hc ⊢; omega, hb⟩
     · cases hs
-  | dFinish => simp only [step] at hs; split at hs <;> first | (cases hs; simpa [nFailed] using h) | cases hs
+  | dUndo =>
+    simp only [step] at hs
+    split at hs
+    · rename_i t hd
+      cases hs
+      exact ⟨by simp [nFailed, dFailed, stopTerm, hd, hl] at hc ⊢; omega, hb⟩
+    · cases hs
+  | dFinish p =>
+    simp only [step] at hs
+    split at hs
+    · rename_i t hd
+      cases hs
+      exact ⟨by simp [nFailed, dFailed, stopTerm, hd] at hc ⊢; omega, hb⟩
+    · cases hs
+  | stopAdd =>
+    simp only [step] at hs
+    split at hs
+    · cases hs
+    · rename_i hsa
+      cases hs
+      exact ⟨by simp [nFailed, dFailed, stopTerm, hsa] at hc ⊢; omega, hb⟩
+  | stopClose =>
+    simp only [step] at hs
+    split at hs
+    · cases hs
+      exact ⟨by simpa [nFailed, dFailed, stopTerm] using hc, hb⟩
+    · cases hs
 
-def run (g : Cfg) (s : St) : List Act → St
-  | [] => s
-  | a :: as => match step g s a with
-    | some s' => run g s' as
-    | none => run g s as
-
-theorem inv_run (g : Cfg) (as : List Act) : ∀ s, Inv s → Inv (run g s as) := by
+theorem cinv_run (g : Cfg) (hl : g.leak = false) (as : List Act) : ∀ s, CInv g s → CInv g (run g s as) := by
   induction as with
   | nil => intro s h; exact h
   | cons a as ih =>
     intro s h
     simp only [run]
     split
-    · rename_i s' hs; exact ih s' (inv_step g s s' a h hs)
+    · rename_i s' hs; exact ih s' (cinv_step g hl s s' a h hs)
     · exact ih s h
 
-/-- C19 (conservation): in every reachable state the counter equals workers + in-flight failed submissions + leaks;
-    hence when the pool is idle the counter equals the number of leaked increments — zero iff the dispatcher
-    never had a failed fork. -/
-theorem c19_counter (g : Cfg) (as : List Act) :
-    let s := run g {} as
-    s.conc = (s.workers.length : Int) + (nFailed s : Int) + (s.leaked : Int) :=
-  inv_run g as {} (by simp [Inv, nFailed])
+/-! ### conservation of tasks -/
 
-theorem c19_idle_counter (g : Cfg) (as : List Act) :
-    let s := run g {} as
-    s.workers = [] → s.goers = [] → s.conc = s.leaked := by
-  intro s hw hg
-  have := c19_counter g as
-  simp only [] at this
-  simp [s, hw, hg, nFailed] at this ⊢
-  exact this
+/-- every place a task can be -/
+def allTasks (s : St) : List Nat :=
+  s.goers.flatMap gTask ++ s.queue ++ s.workers.flatMap wTask ++ dTask s.disp ++ s.done ++ s.dropped
 
-end C19
+/-- each task handed over is in exactly as many places as it was handed over times -/
+def Cons (s : St) : Prop := ∀ t, (allTasks s).count t = s.handed.count t
+
+theorem cons_init : Cons init := by intro t; simp [allTasks, init, dTask]
+
+theorem cons_step (g : Cfg) (s s' : St) (a : Act) (h : Cons s) (hs : step g s a = some s') : Cons s' := by
+  intro t0
+  have h0 := h t0
+  unfold allTasks at h0 ⊢
+  cases a with
+  | go t =>
+    simp only [step] at hs
+    split at hs <;> cases hs <;>
+      (simp [List.count_append, List.flatMap_append, wTask, gTask, List.count_cons] at h0 ⊢; omega)
+  | goUndo i =>
+    simp only [step] at hs
+    split at hs
+    · rename_i t hg
+      cases hs
+      have := count_flatMap_set gTask t0 s.goers i _ (.enq t) hg
+      simp [List.count_append, gTask] at h0 this ⊢; omega
+    · cases hs
+  | goEnq i =>
+    simp only [step] at hs
+    split at hs
+    · rename_i t hg
+      have := count_flatMap_eraseIdx gTask t0 s.goers i _ hg
+      split at hs
+      · cases hs
+        simp [List.count_append, gTask, List.count_cons] at h0 this ⊢; omega
+      · split at hs
+        · rename_i hidle
+          cases hs
+          have hd : s.disp = .idle := hidle.2.1
+          simp [List.count_append, gTask, dTask, hd, List.count_cons] at h0 this ⊢; omega
+        · cases hs
+    · cases hs
+  | goDrop i =>
+    simp only [step] at hs
+    split at hs
+    · rename_i t hg
+      have := count_flatMap_eraseIdx gTask t0 s.goers i _ hg
+      split at hs
+      · cases hs
+        simp [List.count_append, gTask, List.count_cons] at h0 this ⊢; omega
+      · cases hs
+    · cases hs
+  | wFinish i p =>
+    simp only [step] at hs
+    split at hs
+    · rename_i t hw
+      cases hs
+      have := count_flatMap_set wTask t0 s.workers i _ .idle hw
+      simp [List.count_append, wTask, List.count_cons] at h0 this ⊢; omega
+    · cases hs
+  | wTake i =>
+    simp only [step] at hs
+    split at hs
+    · rename_i hw
+      split at hs
+      · rename_i t q hq
+        cases hs
+        have := count_flatMap_set wTask t0 s.workers i _ (.running t) hw
+        simp [List.count_append, wTask, hq, List.count_cons] at h0 this ⊢; omega
+      · rename_i hq
+        cases hs
+        have := count_flatMap_set wTask t0 s.workers i _ .exiting hw
+        simp [List.count_append, wTask, hq] at h0 this ⊢; omega
+    · cases hs
+  | wRdv i k =>
+    simp only [step] at hs
+    split at hs
+    · rename_i t hw hg
+      split at hs
+      · cases hs
+        have h1 := count_flatMap_set wTask t0 s.workers i _ (.running t) hw
+        have h2 := count_flatMap_eraseIdx gTask t0 s.goers k _ hg
+        simp [List.count_append, wTask, gTask, List.count_cons] at h0 h1 h2 ⊢; omega
+      · cases hs
+    · cases hs
+  | wExit i =>
+    simp only [step] at hs
+    split at hs
+    · rename_i hw
+      cases hs
+      have := count_flatMap_eraseIdx wTask t0 s.workers i _ hw
+      simp [List.count_append, wTask] at h0 this ⊢; omega
+    · cases hs
+  | dRecv =>
+    simp only [step] at hs
+    split at hs
+    · rename_i t q hd hq
+      cases hs
+      simp [List.count_append, dTask, hd, hq, List.count_cons] at h0 ⊢; omega
+    · cases hs
+  | dExit =>
+    simp only [step] at hs
+    split at hs
+    · rename_i hd
+      split at hs
+      · cases hs
+        simp [List.count_append, dTask, hd] at h0 ⊢; omega
+      · cases hs
+    · cases hs
+  | dFork =>
+    simp only [step] at hs
+    split at hs
+    · rename_i t hd
+      split at hs <;> cases hs <;>
+        (simp [List.count_append, List.flatMap_append, dTask, wTask, hd, List.count_cons] at h0 ⊢; omega)
+    · cases hs
+  | dUndo =>
+    simp only [step] at hs
+    split at hs
+    · rename_i t hd
+      cases hs
+      simp [List.count_append, dTask, hd] at h0 ⊢; omega
+    · cases hs
+  | dFinish p =>
+    simp only [step] at hs
+    split at hs
+    · rename_i t hd
+      cases hs
+      simp [List.count_append, dTask, hd, List.count_cons] at h0 ⊢; omega
+    · cases hs
+  | stopAdd =>
+    simp only [step] at hs
+    split at hs
+    · cases hs
+    · cases hs; simpa [List.count_append] using h0
+  | stopClose =>
+    simp only [step] at hs
+    split at hs
+    · cases hs; simpa [List.count_append] using h0
+    · cases hs
+
+theorem cons_run (g : Cfg) (as : List Act) : ∀ s, Cons s → Cons (run g s as) := by
+  induction as with
+  | nil => intro s h; exact h
+  | cons a as ih =>
+    intro s h
+    simp only [run]
+    split
+    · rename_i s' hs; exact ih s' (cons_step g s s' a h hs)
+    · exact ih s h
+
+end TPool
